@@ -33,15 +33,16 @@ RULE = ("in-process cases = (language, text) from the union workload (every pref
         "with every way of naming the target; CLI cases = python -m codelimit scan|check as a subprocess; non-trivial = the "
         "input is not a well-formed canonical program (everything except class 'canonical' and 'corpus'); distinct = distinct "
         "(language, input) pairs")
-ASSUMPTIONS = ["time spent inside Pygments' C regex engine produces no steps; a hang there would fire the wall-clock watchdog "
-               "and be reported as inconclusive",
+ASSUMPTIONS = ["interpreter steps are counted inside codelimit only; time inside C code (regular expressions) is bounded separately for "
+               "a family of pathological inputs by RLIMIT_CPU in a child process (CPU seconds, immune to load); elsewhere a hang inside C "
+               "code fires the wall-clock watchdog and is reported as inconclusive",
                "the CLI is driven with positional arguments only (option parsing of typer 0.9.4 + click 8.5 in this image is broken, DESIGN section 2)"]
 BOUNDS = {"quick": dict(n=28, sizes=dict(canon=4, cut_programs=2, cut_cases=2400, mutated_programs=5, mutations=40,
                                          soups=1400, corpus_cuts=5, corpus_mutations=2), trees=2, cli=1),
           "thorough": dict(n=112, sizes=dict(canon=40, cut_programs=30, cut_cases=8000, mutated_programs=100, mutations=120,
                                             soups=80000, corpus_cuts=60, corpus_mutations=20), trees=30, cli=6)}
 MINIMUM = {"quick": {"monitor.scan_file_calls": 25000, "monitor.check_command_calls": 300, "monitor.scan_path_calls": 50,
-                     "monitor.scan_command_calls": 50, "monitor.cli_runs": 40},
+                     "monitor.scan_command_calls": 50, "monitor.cli_runs": 40, "monitor.cpu_bounded_cases": 1000},
            "thorough": {"monitor.scan_file_calls": 600000, "monitor.check_command_calls": 8000, "monitor.scan_path_calls": 1500,
                         "monitor.scan_command_calls": 1500, "monitor.cli_runs": 1000}}
 PY = "/venv/bin/python"
@@ -281,8 +282,65 @@ def cli_cases(ctx, lang, rng, seed, n):
             shutil.rmtree(outside, ignore_errors=True)
 
 
+def pathological_texts(lang, rng):
+    """inputs aimed at super-linear behaviour inside C code (regular expressions, str methods): long runs of one character or of
+    comment leaders, banner comments, long runs of whitespace, quotes, brackets, and almost-markers"""
+    lead = "#" if lang == "Python" else "//"
+    fn = "def f(a):\n    return a\n" if lang == "Python" else "int f(int a) {\n  return a;\n}\n"
+    out = []
+    for n in (30, 90, 700):
+        banners = [lead[0] * n, lead * n, "/" + "*" * n + "/", "/*" + "*" * n, "/* " + "* " * n + "*/", lead + " " + "-" * n, lead + "=" * n + " nocl",
+                   lead + " " + "nocl " * n, lead + " " * n + "nocl", lead + "#" * n + "!" * n, ";" * n, lead + ("/*" * n), lead + " n" + "o" * n + "cl",
+                   "/*" + "/" * n + "*/", "*" * n, "/**" + "/" * n, lead + "\t" * n + "x"]
+        if lang == "Python":
+            banners = [b for b in banners if not b.startswith(("/", "*", ";"))] + ["#" * n + " nocl", "# " + "#" * n, "'" * n, '"' * n, "#" + " #" * n]
+        for b in banners:
+            out.append(b + "\n" + fn)
+            out.append(fn + b + "\n" + fn)
+        out += [fn + " " * (n * 10) + "\n" + fn, "(" * n + fn, fn.replace("f(", "f" + "(" * 3, 1) * (n // 30 + 1), "a" * (n * 20) + "\n" + fn,
+                fn + "\\\n" * n, ("x = '" + "\\" * n + "'\n" if lang == "Python" else 'char *s = "' + "\\" * n + '";\n') + fn]
+    rng.shuffle(out)
+    return out
+
+
+def cpu_bounded(ctx, lang, rng, cpu_seconds=40):
+    """termination of the analysis decided in CPU seconds enforced by the kernel (see vf/cpucase.py); a batch of small inputs
+    normally needs well under one CPU second"""
+    cases = [(lang, t) for t in pathological_texts(lang, rng)]
+    pos = 0
+    guard = 0
+    while pos < len(cases) and guard < 6:
+        guard += 1
+        batch = cases[pos:]
+        env = dict(os.environ, PYTHONPATH=os.pathsep.join([os.path.dirname(os.path.dirname(os.path.abspath(__file__))), REPO]))
+        try:
+            p = subprocess.run([PY, "-m", "vf.cpucase", str(cpu_seconds)], input=json.dumps(batch).encode(), stdout=subprocess.PIPE,
+                               stderr=subprocess.PIPE, env=env, timeout=1200)
+        except subprocess.TimeoutExpired:
+            ctx.inconclusive.append("CPU-bounded child exceeded the wall-clock watchdog (machine overloaded?)")
+            return
+        lines = p.stdout.decode().split("\n")
+        done = sum(1 for ln in lines if ln.startswith("DONE"))
+        ctx.count("monitor.cpu_bounded_cases", done)
+        ctx.eval(done)
+        if "ALL" in lines:
+            return
+        started = [int(ln.split()[1]) for ln in lines if ln.startswith("START")]
+        if p.returncode < 0 and started and len(started) > done:
+            lang_, text = batch[started[-1]]
+            ctx.violation("cpu_budget", {"language": lang_, "text": text, "cpu_bounded": True},
+                          {"error": f"analysis of a {len(text)}-character input consumed more than {cpu_seconds} CPU-seconds "
+                                    f"(child ended by signal {-p.returncode})", "text": clip(text, 160)})
+            pos += started[-1] + 1
+            continue
+        ctx.inconclusive.append(f"CPU-bounded child ended unexpectedly rc={p.returncode}: {p.stderr.decode('utf-8', 'replace')[-300:]}")
+        return
+
+
 def run(shard, ctx):
     lang = shard["language"]
+    if shard["part"] == 0:
+        cpu_bounded(ctx, lang, rng_for(shard["seed"], "c03cpu", lang))
     ip = InProcess(ctx)
     try:
         j = 0
@@ -308,6 +366,14 @@ def run(shard, ctx):
 
 def replay(case, ctx):
     lang = case["language"]
+    if case.get("cpu_bounded"):
+        env = dict(os.environ, PYTHONPATH=os.pathsep.join([os.path.dirname(os.path.dirname(os.path.abspath(__file__))), REPO]))
+        p = subprocess.run([PY, "-m", "vf.cpucase", "40"], input=json.dumps([[lang, case["text"]]]).encode(), stdout=subprocess.PIPE,
+                           stderr=subprocess.PIPE, env=env, timeout=1200)
+        ctx.eval()
+        if b"ALL" not in p.stdout:
+            ctx.violation("cpu_budget", case, {"error": f"child ended rc={p.returncode} before finishing"})
+        return
     if "text" in case:
         ip = InProcess(ctx)
         try:
